@@ -11,7 +11,7 @@ ENGINES = [
 
 ENGINES.append(
     {"name": "E3-enumerate", "path": "vf/props/",
-     "serves_properties": ["C02", "C07", "C08", "C09", "C11", "C13", "C14", "C15", "C16", "C20"],
+     "serves_properties": ["C02", "C05", "C07", "C08", "C09", "C11", "C12", "C13", "C14", "C15", "C16", "C18", "C20"],
      "kind_free_text": "small-scope exhaustive enumerators (compositions, "
      "all boolean masks / NaN placements, option products) run against the "
      "real code with a reference oracle per case"})
@@ -386,5 +386,77 @@ CHECKS = {
         "note": "points on (or within rounding distance of) the boundary "
                 "are excluded; the compiled point-in-polygon code is "
                 "rebuilt from its .c when that changes",
+    },
+    "C05": {
+        "engine": "E3-enumerate",
+        "level": "exploration",
+        "technique": "exhaustive enumeration of the cell complex of each "
+                     "look-up table (nodes, simplices, hull edges) x set-up "
+                     "configurations vs. an independent barycentric "
+                     "evaluation; all batch subsets and call orders",
+        "text": "For the three built-in LUTs and four jittered user LUTs "
+                "(tuple, path, registered identifier; area- and volume-"
+                "based): every node, the centroid and three edge mid-points "
+                "of every Delaunay simplex (quick: every k-th simplex of "
+                "the large tables), a point just inside and just outside "
+                "every hull edge and far points, mapped into the data space "
+                "of 16 configurations (channel width x flow rate x pixel "
+                "size x viscosity): ~5*10^5 probes agree with the "
+                "reference to 1e-9 and are NaN exactly outside the hull. "
+                "Laws: proportionality to viscosity and flow rate, joint "
+                "geometric rescaling, all 63 batch subsets of 6 probes "
+                "bit-equal, every ordered pair of calls from 6 "
+                "configurations, scalar vs per-event temperature, inputs "
+                "and tables unmodified.",
+        "note": "the continuum is replaced by the LUT cell complex; probes "
+                "within 1e-5 (normalised) of the hull are skipped; qhull is "
+                "trusted for the triangulation; viscosities of known media "
+                "come from dclab's get_viscosity; extrapolate=True outside",
+    },
+    "C12": {
+        "engine": "E3-enumerate",
+        "level": "exploration",
+        "technique": "exhaustive enumeration of all filter masks with "
+                     "poisoned excluded events x analysis entry points "
+                     "(differential vs. a dataset of the selected events) "
+                     "plus reference estimators",
+        "text": "All 2^8 (quick) / 2^10 (thorough) filter masks on a "
+                "dataset whose excluded events carry 1e12 / NaN / inf / "
+                "negative / 1e300 values: every statistic x 2 features, "
+                "Events and %-gated, 3 KDE types x linear/log x (event "
+                "positions, explicit positions), contour grids, quantile "
+                "levels, downsampled scatter (3 sizes) are bit-equal (or "
+                "raise the same exception) to the same call on a dataset "
+                "holding only the selected events; filters disabled => all "
+                "events; statistics equal their numpy definitions; gauss "
+                "and product-kernel estimates equal reference estimators "
+                "to 1e-9; the quantile level leaves the fraction q +/- 1/n "
+                "below it (n = 20, 200, 2000).",
+        "note": "8-10 events with heavy ties; reference estimators only "
+                "when >= 4 non-degenerate events are selected; tsv export "
+                "is covered by C02",
+    },
+    "C18": {
+        "engine": "E3-enumerate",
+        "level": "exploration",
+        "technique": "exhaustive enumeration of all small connected "
+                     "hole-free masks x placements, all 3^6 spill matrices, "
+                     "ladders of discretised ellipsoids",
+        "text": "All 24391 8-connected hole-free masks (>= 2 px) fitting a "
+                "4x4 box, placed in the interior and against the borders / "
+                "a corner of a 9x9 frame: contour lies on the mask and "
+                "refill(contour) == mask; moments / inertia ratios are "
+                "translation invariant, swap reciprocally under transpose, "
+                "the principal ratio is >= 1 and invariant under the 8 "
+                "lattice symmetries; volume: cubic in pixel size, sign "
+                "flips with orientation, fix_orientation, error vs the "
+                "analytic sphere/ellipsoid volume decreasing for r = "
+                "5..80; brightness mean/SD/percentiles on masks x 6 "
+                "image/background pairs with offsets None/scalar/list/"
+                "ndarray/h5 dataset; all 3^6 spill matrices over "
+                "{0,0.1,0.3}: correction inverts the spill.",
+        "note": "one-pixel masks are outside (get_contour raises by "
+                "design); masks larger than 4x4 only via the ellipse "
+                "ladder; the tdms event_mask path is not exercised",
     },
 }
